@@ -809,6 +809,18 @@ func (y *Type) RequireInstance() bool {
 // Resolve is the effective datatype if this type points to a different
 // dataType, which is the case for leafRefs.  Otherwise this just returns
 // itself
+// IdentityBases are the bases of an identityref, for a union those of all its identityref members
+func (y *Type) IdentityBases() []*Identity {
+	if len(y.unionTypes) == 0 {
+		return y.Base()
+	}
+	var bases []*Identity
+	for _, member := range y.unionTypes {
+		bases = append(bases, member.IdentityBases()...)
+	}
+	return bases
+}
+
 func (y *Type) Resolve() *Type {
 	if y.delegate == nil {
 		panic("no delegate")
